@@ -70,7 +70,7 @@ const std::vector<std::string>& name_opts() {
                                        "Fixed/UTC+05:30:00", "Fixed/UTC+25:00:00", "fixed/utc+01:00:00", "ADir", "NoPerm", "Trunc", "Leap", "BadMagic", "Empty", "V1", "Real",
                                        "X/", "./X", "localtime", "Dir", "Fixed/UTC-00:00:00", "Fixed/UTC+24:00:00", "file:UTC", "/etc/localtime", "file:No/Such", "Dir//Y", "MarkF", "TruncNL", "TruncFooter",
                                        "Fixed/UTC+24:00:01", "Fixed/UTC+5:30:00", "UTC00", "utc", "Fixed/UTC+00:00:00", "Fixed/UTC-24:00:00", "Fixed/UTC+05:30", "file:Fixed/UTC+05:30:00",
-                                       "Dir/../X", "X/.", "Dir/./Y", "./Dir//Y", " X", "X ", "\xc3\x9cn\xc3\xaf/X", "EST5EDT", "<+03>-3", "Dir/../../X", "X/../X", "LONG", "Dir/Y/", "x", "X\tX"};
+                                       "Dir/../X", "X/.", "Dir/./Y", "./Dir//Y", " X", "X ", "\xc3\x9cn\xc3\xaf/X", "EST5EDT", "<+03>-3", "Dir/../../X", "X/../X", "LONG", "Dir/Y/", "x", "X\tX", "NUL1", "NUL2", "NUL3", "NUL4"};
   return v;
 }
 
@@ -157,6 +157,14 @@ bool content_valid(const FsSpec& f) {  // validity known by construction, never 
   return (f.kind == "reg" || f.kind == "fifo") && (f.content.compare(0, 6, "marker") == 0 || f.content.compare(0, 8, "shipped:") == 0);
 }
 
+// Names with an embedded NUL character: they name no file and no built-in zone.
+void expand_nul_name(std::string* n) {
+  if (*n == "NUL1") *n = std::string("X\0junk", 6);
+  else if (*n == "NUL2") *n = std::string("Fixed/UTC+0\0:00:00", 18);
+  else if (*n == "NUL3") *n = std::string("Dir/Y\0", 6);
+  else if (*n == "NUL4") *n = std::string("Fixed/UTC-00:00:0\0", 18);
+}
+
 const int64_t kCross = 6 * 19 * 5;
 
 }  // namespace
@@ -183,6 +191,7 @@ C19Case gen_c19(const std::string& part, const std::string& tier, uint64_t seed,
     set_env(static_cast<size_t>(e % 6), static_cast<size_t>((e / 6) % 19), static_cast<size_t>(e / 114));
     C19Op o; o.op = "load"; o.name = name_opts()[static_cast<size_t>(n)];
     if (o.name == "LONG") o.name = "Dir/" + std::string(300, 'y');
+    expand_nul_name(&o.name);
     c.ops.push_back(o);
     o.op = "local"; o.name.clear(); c.ops.push_back(o);
     o.op = "default"; c.ops.push_back(o);
@@ -200,6 +209,7 @@ C19Case gen_c19(const std::string& part, const std::string& tier, uint64_t seed,
     if (p < 70) {
       o.op = "load"; o.name = r.pick(name_opts());
       if (o.name == "LONG") o.name = std::string(static_cast<size_t>(r.pick(std::vector<int>{200, 255, 256, 300, 1100, 5000})), 'y');
+      expand_nul_name(&o.name);
       if (!c.ops.empty() && r.chance(0.15)) o.name = c.ops[r.below(c.ops.size())].name;
     }
     else if (p < 92) o.op = "local";
@@ -403,7 +413,7 @@ Outcome exec_c19(const C19Case& c, bool keep_log, Stats* stats) {
     bool needs_file = false, needs_env = false;
     for (const C19Op& o : c.ops) {
       int64_t off;
-      if (o.op == "load" && !builtin_name(o.name, &off)) needs_file = true;
+      if (o.op == "load" && !builtin_name(o.name, &off) && o.name.find('\0') == std::string::npos) needs_file = true;   // (a name with a NUL names no file)
       if (o.op == "local") needs_env = true;
     }
     if (needs_file && fopen_count == 0) viol("machinery:fopen-seam-bypassed", "no fopen call reached the simulated file system", "the library opened files through an entry point this harness does not intercept");
